@@ -35,6 +35,9 @@ func (x *ex) stepSave(idx int, o Op) {
 			h = tr.depth()
 		}
 		live := h == tr.depth() && h > 0
+		if live && h == 1 {
+			x.closeSit() // the outermost level ends: open snapshot iterators are closed by their owner first
+		}
 		before := ""
 		if !live || o.Op == "release" {
 			before = fullObs(t)
